@@ -509,7 +509,14 @@ class ScheduleNTasksInTimeIntervals(TaskConstraint):
         asst_pb = problem_function[self.kind](
             [(scheduled, True) for scheduled in all_bools], self.nb_tasks_to_schedule
         )
-        self.set_z3_assertions(asst_pb)
+        # with a single task and kind 'max', this is the 'only one interval per task'
+        # assertion that was added above
+        if not (
+            len(self.list_of_tasks) == 1
+            and self.kind == "max"
+            and self.nb_tasks_to_schedule == 1
+        ):
+            self.set_z3_assertions(asst_pb)
 
 
 #
